@@ -85,11 +85,18 @@ _VAL = "abcdefghijklmnopqrstuvwxyzABCDEFGHIJKLMNOPQRSTUVWXYZ0123456789 ,.;:/!@#$
 
 # ------------------------------------------------------------------------------------------- generation
 
+_WORDS = ["default", "default", "set", "client", "server", "header", "parameter", "output", "print", "true", "metadata", "id"]
+
+
 def _val(rng, lo=0, hi=16):
+    if rng.random() < 0.08:
+        return rng.choice(_WORDS)     # values that read like keywords / variant names of the language
     return "".join(rng.choice(_VAL) for _ in range(rng.randint(lo, hi)))
 
 
 def _arg(rng):
+    if rng.random() < 0.06:
+        return hx(rng.choice(_WORDS).encode())
     n = rng.choice([0, 1, 3, 8, 20])
     out = bytearray()
     while len(out) < n:
